@@ -377,13 +377,13 @@ def gen_deck(rng, malformed=False):
             and rng.random() < (0.45 if owners else 0.04):
         names = set()
         badref = False
-        for _ in range(rng.choice([1, 1, 2])):
+        for _ in range(rng.choice([1, 1, 2, 3])):
             roll = rng.random()
             owner = rng.choice(owners) if owners and roll < 0.9 else \
                 rng.choice(cells + [{'id': 8}])      # no TRCL / no such cell
             sid = rng.choice(usable + bodies) if rng.random() < 0.93 else 79
             n = 1000 * owner['id'] + sid
-            if n in names or list(names | {n}) != sorted(names | {n}):
+            if n in names:
                 continue
             names.add(n)
             badref = badref or sid == 79 or owner['id'] == 8
@@ -392,12 +392,6 @@ def gen_deck(rng, malformed=False):
         if badref and fault is None:
             fault = 'missing'       # names a surface / a cell that does not exist
         elif badref:
-            return gen_deck(rng, malformed)
-        # the converter walks set(names) - set(cards): keep the deck only when
-        # that walk is in ascending order, which is what the model assumes
-        walk = set(abs(x) for c in cells for x in c['lits']
-                   if abs(x) >= 1000) - set(s['id'] for s in surfs)
-        if list(walk) != sorted(walk):
             return gen_deck(rng, malformed)
     return {'surfs': surfs, 'cells': cells, 'fault': fault}
 
@@ -452,6 +446,19 @@ def observe(deck, args):
         return conv, t4, '(Err EOther)'
     bcs = [cpair(KIND[k], cn(sid)) for k, sid in t4.boundary]
     return conv, t4, f'(Ok ({clist(surf)}, {clist(bcs)}))'
+
+
+def walk_order(deck):
+    '''The order in which the converter walks the implicit surfaces: it builds
+    set(numbers >= 1000 named by the cells, in card and literal order) minus
+    set(surface cards) and iterates over it; the same expression is evaluated
+    here, so the model is fed the order CPython really uses.'''
+    named = [abs(x) for c in deck['cells'] for x in c['lits']
+             if abs(x) >= 1000]
+    cards = {}
+    for s in deck['surfs']:
+        cards[s['id']] = s
+    return list(set(named) - set(cards))
 
 
 def coq_cards(deck):
@@ -1193,7 +1200,12 @@ def run(res, tier, seed, proofs_ok):
                                     for x in c['lits']) for s in deck['surfs'])))
         res.count('impl:' + (conv.exc or 'ok'))
         res.count('dedup:' + str('--skip-deduplication' not in args))
-        cases.append(cpair(cbool('--skip-deduplication' in args),
+        walk = walk_order(deck)
+        if walk:
+            res.count('shape:implicit-walk-ascending:'
+                      + str(walk == sorted(walk)))
+        cases.append(cpair(clist(cn(n) for n in walk),
+                           cbool('--skip-deduplication' in args),
                            cbool('--skip-boundary-conditions' in args),
                            coq_cards(deck), coq_cells(deck), term))
         meta.append((deck, args, conv, term))
@@ -1209,8 +1221,8 @@ def run(res, tier, seed, proofs_ok):
     res.extra['guard'] = {'flagged decks converted (theorems apply, no '
                           'guard)': inside,
                           'of which with a non-empty block': outside}
-    bad, errs = common.run_case_files('c16_run', HEADER, 'run_t_case',
-                                      'check_run_t', cases)
+    bad, errs = common.run_case_files('c16_run', HEADER, 'run_w_case',
+                                      'check_run_w', cases)
     res.obligation(f'tie:run ({len(cases)} conversions: Model.run = SURF ids/'
                    'classes + BOUNDARY_CONDITION block or exception class)',
                    not bad and not errs,
@@ -1219,7 +1231,7 @@ def run(res, tier, seed, proofs_ok):
         deck, args, conv, term = meta[idx]
         model, _ = common.coq_eval(
             HEADER + 'Import ListNotations.\n',
-            f'run_t (mkCfg {cbool("--skip-deduplication" in args)} '
+            f'run_t_with {clist(cn(n) for n in walk_order(deck))} (mkCfg {cbool("--skip-deduplication" in args)} '
             f'{cbool("--skip-boundary-conditions" in args)}) '
             f'{coq_cards(deck)} {coq_cells(deck)}')
         res.violation('correspondence',
@@ -1271,7 +1283,7 @@ def replay(path):
             if all('lits' in c for c in deck['cells']):
                 model, _ = common.coq_eval(
                     HEADER + 'Import ListNotations.\n',
-                    f'run_t (mkCfg {cbool("--skip-deduplication" in args)} '
+                    f'run_t_with {clist(cn(n) for n in walk_order(deck))} (mkCfg {cbool("--skip-deduplication" in args)} '
                     f'{cbool("--skip-boundary-conditions" in args)}) '
                     f'{coq_cards(deck)} {coq_cells(deck)}')
                 print('implementation:', term)
